@@ -16,6 +16,7 @@ import (
 	"math/big"
 	"strings"
 	"sync"
+	"time"
 
 	"github.com/NethermindEth/juno/blockchain/networks"
 	"github.com/NethermindEth/juno/core"
@@ -26,6 +27,7 @@ import (
 type acceptChecker struct {
 	drv   *lib.Driver
 	net   *networks.Network
+	dead  bool
 	cache map[string]string // tx line -> evaluated hash ("~" when the model reports an error)
 	mu    sync.Mutex
 }
@@ -40,13 +42,27 @@ func newAcceptChecker(f lib.Flags, res *lib.Result, g *lib.ChainGen) *acceptChec
 }
 
 func (a *acceptChecker) close() {
-	if a != nil {
+	if a != nil && !a.dead {
 		a.drv.Close()
 	}
 }
 
+// askDeadline bounds a driver round trip: a driver that hangs must not hang the harness.
+func (a *acceptChecker) ask(line string) (string, error) {
+	if a.dead {
+		return "", fmt.Errorf("driver abandoned after an earlier timeout")
+	}
+	var out string
+	var err error
+	if !lib.WithDeadline(3*time.Minute, func() { out, err = a.drv.Ask(line) }) {
+		a.dead = true
+		return "", fmt.Errorf("driver did not answer within 3 minutes")
+	}
+	return out, err
+}
+
 func (a *acceptChecker) evalLine(line string) (string, error) {
-	out, err := a.drv.Ask(line)
+	out, err := a.ask(line)
 	if err != nil {
 		return "", err
 	}
@@ -146,12 +162,12 @@ func (a *acceptChecker) modelVerdict(b *lib.Bundle, headNumber uint64, headHash 
 	for _, v := range bv {
 		w.tok(v)
 	}
-	return a.drv.Ask(w.String())
+	return a.ask(w.String())
 }
 
 // compare records the correspondence of one offer.
 func (a *acceptChecker) compare(res *lib.Result, tc tamperCase, headNumber uint64, headHash *felt.Felt, realClass string) {
-	if a == nil || realClass == "panic" || realClass == "hang" {
+	if a == nil || realClass == "panic" || realClass == "malformed" || realClass == "hang" {
 		return
 	}
 	for _, tx := range tc.Bundle.Block.Transactions {
@@ -189,4 +205,14 @@ func (a *acceptChecker) compare(res *lib.Result, tc tamperCase, headNumber uint6
 	if !ok {
 		res.Mismatch(lib.Mismatch{Sig: "accept-verdict:" + tc.Name, Input: tc.Detail, Model: model, Impl: realClass})
 	}
+}
+
+// askAllDeadline bounds a scripted exchange with the driver.
+func askAllDeadline(drv *lib.Driver, lines []string) ([]string, error) {
+	var outs []string
+	var err error
+	if !lib.WithDeadline(10*time.Minute, func() { outs, err = drv.AskAll(lines) }) {
+		return nil, fmt.Errorf("driver did not answer %d lines within 10 minutes", len(lines))
+	}
+	return outs, err
 }
